@@ -329,41 +329,80 @@ func wholeBodyLocked(fd *ast.FuncDecl) bool {
 		return false
 	}
 	b := fd.Body.List
-	for i := 0; i < len(b); i++ {
-		p := callPath(b[i])
-		if len(p) >= 2 && (p[len(p)-1] == "Lock" || p[len(p)-1] == "RLock") {
-			// matching defer right after, or an explicit unlock as the last non-return statement
-			if i+1 < len(b) {
-				q := callPath(b[i+1])
-				if len(q) >= 3 && q[0] == "defer" && strings.HasSuffix(q[len(q)-1], "nlock") {
-					return true
-				}
-			}
-			for j := len(b) - 1; j > i; j-- {
-				if _, ok := b[j].(*ast.ReturnStmt); ok {
-					continue
-				}
-				q := callPath(b[j])
-				return len(q) >= 2 && strings.HasSuffix(q[len(q)-1], "nlock")
-			}
-			return false
+	// exactly ONE lock acquisition and ONE release at the top level of the body (a second Lock/RLock — e.g. a body split in
+	// two phases — is not a single critical section), of matching kinds
+	nLock, nUnlock, lockIdx, lockKind := 0, 0, -1, ""
+	for i, st := range b {
+		p := callPath(st)
+		if len(p) < 2 {
+			continue
 		}
-		// statements allowed before the lock: guards that only return, simple assignments without calls into shared state
+		last := p[len(p)-1]
+		if p[0] != "defer" && (last == "Lock" || last == "RLock") {
+			nLock++
+			if lockIdx < 0 {
+				lockIdx, lockKind = i, last
+			}
+		}
+		if last == "Unlock" || last == "RUnlock" {
+			nUnlock++
+		}
+	}
+	// nested blocks must not touch the mutex either (early-return branches may release a non-deferred lock: allowed only
+	// when immediately followed by a return)
+	if nLock != 1 || nUnlock < 1 {
+		return false
+	}
+	for i := 0; i < lockIdx; i++ {
 		switch s := b[i].(type) {
 		case *ast.IfStmt:
-			onlyReturns := true
 			for _, x := range s.Body.List {
 				if _, ok := x.(*ast.ReturnStmt); !ok {
-					onlyReturns = false
+					return false
 				}
 			}
-			if !onlyReturns {
+		case *ast.AssignStmt, *ast.DeclStmt:
+			// nothing that touches the receiver's state may run before the lock is taken
+			recv := ""
+			if fd.Recv != nil && len(fd.Recv.List) > 0 && len(fd.Recv.List[0].Names) > 0 {
+				recv = fd.Recv.List[0].Names[0].Name
+			}
+			touches := false
+			ast.Inspect(s, func(x ast.Node) bool {
+				if c, ok := x.(*ast.CallExpr); ok {
+					if pp := selPath(c.Fun); len(pp) >= 2 && pp[0] == recv {
+						touches = true
+					}
+				}
+				return !touches
+			})
+			if touches {
 				return false
 			}
-		case *ast.AssignStmt, *ast.DeclStmt:
 		default:
 			return false
 		}
+	}
+	want := "Unlock"
+	if lockKind == "RLock" {
+		want = "RUnlock"
+	}
+	if lockIdx+1 < len(b) {
+		q := callPath(b[lockIdx+1])
+		if len(q) >= 3 && q[0] == "defer" && q[len(q)-1] == want {
+			return nUnlock == 1
+		}
+	}
+	// explicit release: the LAST non-return top-level statement, and the only top-level release
+	if nUnlock != 1 {
+		return false
+	}
+	for j := len(b) - 1; j > lockIdx; j-- {
+		if _, ok := b[j].(*ast.ReturnStmt); ok {
+			continue
+		}
+		q := callPath(b[j])
+		return len(q) >= 2 && q[0] != "defer" && q[len(q)-1] == want
 	}
 	return false
 }
